@@ -32,3 +32,9 @@ Example C16_hyp_sat :
   aexact [5; 172; 2; 1; 0; 0; 0; 9; 8; 7] [RByte; RVar 32; RFixed 4; RBytes 3]
   = Some [VNum 5; VNum 300; VNum 1; VBytes [9; 8; 7]].
 Proof. vm_compute. reflexivity. Qed.
+
+(* the constants of the model (varint byte budgets, magic bytes, format version, nesting limit, default
+   buffer size >= 10) are those of the current sources (Gen/Tables.v is regenerated from /repo on every run) *)
+From YV Require Import Proofs.GenTie.
+Theorem C16_constants_are_the_sources : constants_statement.
+Proof. exact constants_agree. Qed.
